@@ -88,6 +88,19 @@ func genSwitch(r *rng, index int) *Spec {
 		}
 	}
 	sp.World.ClientWriteMs = int64(r.pickInt(150, 300, 700))
+	if (index/10)%4 == 1 {
+		// async mode: during an *automatic* failover a candidate within the allowed lag need not
+		// catch up; every other kind of request still waits
+		c.Async = true
+		c.SemiSync = false // the two modes exclude each other
+		c.AsyncAllowedLagMs = int64(r.pickInt(30000, 60000))
+		c.ReplMon = true
+		for i := range sp.Hosts {
+			if sp.Hosts[i].Role == "ha" && i > 0 && r.chance(0.7) {
+				sp.Hosts[i].Init = &InitState{ApplyDelayMs: int64(r.pickInt(1500, 4000, 9000))}
+			}
+		}
+	}
 	T0 := int64(20000 + r.intn(10000))
 	// optional earlier master change so that several source uuids exist
 	if len(ha) >= 3 && r.chance(0.25) {
@@ -106,7 +119,19 @@ func genSwitch(r *rng, index int) *Spec {
 		}
 	}
 	kind := switchKinds[index%len(switchKinds)]
-	v := addSwitchRequest(sp, r, kind, T0)
+	v := ""
+	if c.Async && kind == "failover_flag" && r.chance(0.7) {
+		// operator-forced failover to a host whose applier is behind (within the allowed lag): it
+		// is not an automatic failover, the candidate has to catch up
+		to := ha[1+r.intn(len(ha)-1)]
+		sp.hostSpecByName(to).Init = &InitState{ApplyDelayMs: int64(r.pickInt(3000, 6000, 9000))}
+		sp.World.ClientWriteMs = int64(r.pickInt(150, 300))
+		c.SlaveCatchUpTimeoutMs = 30000
+		sp.Timeline = append(sp.Timeline, TLEvent{AtMs: T0, Kind: "cli_switch_to", Host: ha[r.intn(len(ha))], Arg: to, N: 1})
+		v = "forced_to_lagging=" + to
+	} else {
+		v = addSwitchRequest(sp, r, kind, T0)
+	}
 	// faults while the procedure runs
 	sp.Rates = RateSpec{FromMs: T0 - 1000, ToMs: T0 + 40000,
 		SQLErr: []float64{0, 0.005, 0.015, 0.03}[r.intn(4)], SQLLost: []float64{0, 0.003, 0.01}[r.intn(3)],
